@@ -53,40 +53,18 @@ def OwnUnlockFailed (cfg : Cfg) (w w' : FWorld) (b lk : Nat) : Prop :=
 /-- the entry lapses by itself at most `timeout` after the block was left -/
 def LapsesWithin (cfg : Cfg) (w' : FWorld) (e : LEntry) : Prop := ∃ d, e.dl = some d ∧ d ≤ w'.now + cfg.timeout
 
-/-- `Transaction._rollback` is the loop of /repo (`except Exception` only) and the `unlock` of ANOTHER lock entry, issued
-during the block, ended with a BaseException (it was cut short by a time limit / the task was cancelled): that exception
-is not caught by the loop, so the backends after it are never unlocked -/
+/-- the OLD loop of `Transaction._rollback` (before 12f0cbb: `except Exception` only, `cfg.rbAll = false`) was left because
+the `unlock` of ANOTHER lock entry, issued during the block, ended with a BaseException (it was cut short by a time
+limit / the task was cancelled): the backends after it were never unlocked -/
 def RollbackLeftEarly (cfg : Cfg) (w w' : FWorld) (b lk : Nat) : Prop :=
   cfg.rbAll = false ∧ ∃ i b' lk', w.counter ≤ i ∧ i < w'.counter ∧ cfg.fails i = true ∧ cfg.base i = true ∧
     (b', lk') ≠ (b, lk) ∧ (⟨i, b', .unlock lk', true⟩ : Ev) ∈ w'.log
 
-/-
-THE FULL STATEMENT of this part of the property ("every lock the transaction took is released, or the failing
-command is that very unlock, and then the entry lapses by itself within the timeout"):
-
-    ∀ cfg body w, w.ctx = none → NoMine w →
-      ∀ b lk e, alLookup (runBlock cfg body w).2.locks (b, lk) = some e → e.mine = true →
-        OwnUnlockFailed cfg w (runBlock cfg body w).2 b lk ∧ LapsesWithin cfg (runBlock cfg body w).2 e
-
-It is FALSE of the code at /repo (model: `cfg.rbAll = false`) — see the counterexample `example` at the end of this
-file, reproduced on the real code by corpus/C16/N1_*.json: the body of a two-backend transaction raises, the unlock of
-the first backend's lock issued by the rollback ends with CancelledError, `_rollback` (`except Exception`) is left and
-the second backend's lock stays for the full timeout.  (New defect; proposed_fixes/C16_rollback_stops_at_baseexception.diff.)
-What IS true is proved below:
-  * `locks_released_or_self_failed`                    — every oracle: own unlock failed OR the loop was left that way;
-  * `locks_released_when_unlock_faults_are_exceptions` — the full statement for every oracle in which no `unlock` ends
-    with a BaseException (BaseExceptions anywhere else — body, lock acquisition, the writes of commit — are covered);
-  * `locks_released_when_rollback_continues`           — the full statement for every oracle once `_rollback` goes on
-    past a BaseException (`cfg.rbAll = true`, the proposed repair).
--/
-
-/-- **Every lock the transaction took is released, or the failing command is that very unlock** — then the entry
-lapses by itself at most `timeout` after the block was left — **or `_rollback` was left by a BaseException**.  Stated
-on what is left in the lock stores, for every oracle and every assignment of kinds: any entry still carrying this
-transaction's token after the block either has a logged `unlock` command of its own key, on its own backend, issued
-during this block, that the oracle made fail, or the unlock of another entry, issued during this block, was made to
-fail with a BaseException and the `_rollback` loop is the one of /repo; in both cases its deadline is within the timeout. -/
-theorem locks_released_or_self_failed (cfg : Cfg) (body : List BodyCmd) (w : FWorld)
+/-- (remark, both loops) what is true whichever loop `_rollback` is: any entry still carrying this transaction's token
+after the block has a logged `unlock` of its own that was made to fail, or — only possible with the OLD loop — the unlock
+of another entry ended with a BaseException and `_rollback` was left.  The headline theorem
+`locks_released_or_self_failed` below is the instance for the loop of /repo. -/
+theorem locks_released_or_rollback_left_early (cfg : Cfg) (body : List BodyCmd) (w : FWorld)
     (h : w.ctx = none) (hm : NoMine w) :
     ∀ b lk e, alLookup (runBlock cfg body w).2.locks (b, lk) = some e → e.mine = true →
       (OwnUnlockFailed cfg w (runBlock cfg body w).2 b lk ∨ RollbackLeftEarly cfg w (runBlock cfg body w).2 b lk) ∧
@@ -134,7 +112,23 @@ theorem locks_released_or_self_failed (cfg : Cfg) (body : List BodyCmd) (w : FWo
     simp only [Bool.false_eq_true, if_false] at he ⊢
     exact key _ (commitLoop_RExit cfg tx.backs w2) (commitLoop_cov cfg w.counter tx.backs w2 hcnt hcov) he
 
-/-- **The full statement, for every oracle in which no `unlock` ends with a BaseException**: failing commands of
+/-- **Every lock the transaction took is released, or the failing command is that very unlock** — then the entry lapses
+by itself at most `timeout` after the block was left.  FULL statement, for the code of /repo (`_rollback` rolls every
+backend back whatever fails, `cfg.rbAll = true`, the model's default), for EVERY fault oracle and EVERY assignment of
+kinds (Exception / BaseException such as `asyncio.CancelledError`): any entry still carrying this transaction's token
+after the block has a logged `unlock` command of its own key, on its own backend, issued during this block, that the
+oracle made fail; and its deadline is within the timeout. -/
+theorem locks_released_or_self_failed (cfg : Cfg) (hall : cfg.rbAll = true) (body : List BodyCmd) (w : FWorld)
+    (h : w.ctx = none) (hm : NoMine w) :
+    ∀ b lk e, alLookup (runBlock cfg body w).2.locks (b, lk) = some e → e.mine = true →
+      OwnUnlockFailed cfg w (runBlock cfg body w).2 b lk ∧ LapsesWithin cfg (runBlock cfg body w).2 e := by
+  intro b lk e he hmine
+  obtain ⟨h1 | ⟨h3, _⟩, h2⟩ := locks_released_or_rollback_left_early cfg body w h hm b lk e he hmine
+  · exact ⟨h1, h2⟩
+  · rw [hall] at h3
+    cases h3
+
+/-- (remark, both loops) **the full statement holds even for the OLD loop when no `unlock` ends with a BaseException**: failing commands of
 BaseException kind anywhere else — in the body, while a lock is being acquired, in the `delete_many` / `set_many` of
 the commit of ANY backend (the first of several in particular: `Transaction.commit` catches BaseException and rolls
 the remaining backends back) — and failing unlocks of Exception kind leave no lock behind except one whose own
@@ -145,35 +139,21 @@ theorem locks_released_when_unlock_faults_are_exceptions (cfg : Cfg) (body : Lis
     ∀ b lk e, alLookup (runBlock cfg body w).2.locks (b, lk) = some e → e.mine = true →
       OwnUnlockFailed cfg w (runBlock cfg body w).2 b lk ∧ LapsesWithin cfg (runBlock cfg body w).2 e := by
   intro b lk e he hmine
-  obtain ⟨h1 | ⟨_, i, b', lk', hi1, _, _, hi4, _, hi6⟩, h2⟩ := locks_released_or_self_failed cfg body w h hm b lk e he hmine
+  obtain ⟨h1 | ⟨_, i, b', lk', hi1, _, _, hi4, _, hi6⟩, h2⟩ := locks_released_or_rollback_left_early cfg body w h hm b lk e he hmine
   · exact ⟨h1, h2⟩
   · rw [hu i b' lk' hi1 hi6] at hi4
     cases hi4
-
-/-- **The full statement, for every oracle and every assignment of kinds, once `_rollback` goes on past a
-BaseException** (rolls every backend back and re-raises it at the end: `cfg.rbAll = true`, the loop of
-proposed_fixes/C16_rollback_stops_at_baseexception.diff). -/
-theorem locks_released_when_rollback_continues (cfg : Cfg) (hall : cfg.rbAll = true) (body : List BodyCmd) (w : FWorld)
-    (h : w.ctx = none) (hm : NoMine w) :
-    ∀ b lk e, alLookup (runBlock cfg body w).2.locks (b, lk) = some e → e.mine = true →
-      OwnUnlockFailed cfg w (runBlock cfg body w).2 b lk ∧ LapsesWithin cfg (runBlock cfg body w).2 e := by
-  intro b lk e he hmine
-  obtain ⟨h1 | ⟨h3, _⟩, h2⟩ := locks_released_or_self_failed cfg body w h hm b lk e he hmine
-  · exact ⟨h1, h2⟩
-  · rw [hall] at h3
-    cases h3
 
 /-- **… and that stays so whatever happens to the foreign locks afterwards**: once the block has been left nothing
 of this transaction is still waiting for a lock (acquisition is sequential: a blocked `_lock_updates` has obtained
 its lock or raised before the next command starts), so when other holders release their locks LATER (any list of
 release events after the block) still every entry carrying this transaction's token is one whose own `unlock`,
-issued during the block, was made to fail (or `_rollback` was left by a BaseException, as above). -/
-theorem locks_released_or_self_failed_after_release (cfg : Cfg) (body : List BodyCmd) (w : FWorld)
+issued during the block, was made to fail. -/
+theorem locks_released_or_self_failed_after_release (cfg : Cfg) (hall : cfg.rbAll = true) (body : List BodyCmd) (w : FWorld)
     (h : w.ctx = none) (hm : NoMine w) (later : List (Nat × Nat)) :
     ∀ b lk e, alLookup (envRel later (runBlock cfg body w).2.locks) (b, lk) = some e → e.mine = true →
-      (OwnUnlockFailed cfg w (runBlock cfg body w).2 b lk ∨ RollbackLeftEarly cfg w (runBlock cfg body w).2 b lk) ∧
-      LapsesWithin cfg (runBlock cfg body w).2 e :=
-  fun b lk e he hmine => locks_released_or_self_failed cfg body w h hm b lk e (envRel_sub _ _ _ _ he) hmine
+      OwnUnlockFailed cfg w (runBlock cfg body w).2 b lk ∧ LapsesWithin cfg (runBlock cfg body w).2 e :=
+  fun b lk e he hmine => locks_released_or_self_failed cfg hall body w h hm b lk e (envRel_sub _ _ _ _ he) hmine
 
 /-- the environment never releases this transaction's own locks (it cannot be blamed for a missing entry, and
 the theorems above are not vacuous because "somebody else cleaned up") -/
@@ -192,7 +172,7 @@ theorem no_lock_left_without_unlock_fault (cfg : Cfg) (body : List BodyCmd) (w :
   | false => rfl
   | true =>
     obtain ⟨⟨i, h1, _, _, h4⟩ | ⟨_, i, _, _, h1, _, _, _, _, h4⟩, _⟩ :=
-      locks_released_or_self_failed cfg body w h hm key.1 key.2 e he hme
+      locks_released_or_rollback_left_early cfg body w h hm key.1 key.2 e he hme
     · have := hu _ h4 h1 ⟨_, rfl⟩
       cases this
     · have := hu _ h4 h1 ⟨_, rfl⟩
@@ -254,10 +234,10 @@ theorem fault_never_silent (cfg : Cfg) (body : List BodyCmd) (w : FWorld) (h : w
 def failsAt (l : List Nat) : Nat → Bool := fun i => l.contains i
 
 /-- locked mode, timeout 16 ticks, 5 lock attempts -/
-def demoCfg (faults : List Nat) : Cfg := ⟨.locked, 16, 5, [], failsAt faults, 0, fun _ => [], fun _ => false, false⟩
+def demoCfg (faults : List Nat) : Cfg := ⟨.locked, 16, 5, [], failsAt faults, 0, fun _ => [], fun _ => false, true⟩
 
 /-- the same, the faults listed in `bases` being of BaseException kind (a command cut short by a time limit ends with
-`asyncio.CancelledError`); `rbAll`: which `_rollback` loop -/
+`asyncio.CancelledError`); `rbAll`: which `_rollback` loop (true = /repo) -/
 def demoCfgB (faults bases : List Nat) (rbAll : Bool) : Cfg :=
   { demoCfg faults with base := failsAt bases, rbAll := rbAll }
 
@@ -321,7 +301,7 @@ example :
 /-- locked mode, timeout 4, 3 lock attempts, a lock-step takes 1; the holder of lock key 2 of backend 0 releases it
 just before command `rel` -/
 def contCfg (faults : List Nat) (rel : Nat) : Cfg :=
-  ⟨.locked, 4, 3, [], failsAt faults, 1, fun i => if i = rel then [(0, 2)] else [], fun _ => false, false⟩
+  ⟨.locked, 4, 3, [], failsAt faults, 1, fun i => if i = rel then [(0, 2)] else [], fun _ => false, true⟩
 
 /-- `set_many` over keys 0, 1, 2 (lock keys 1, 2, 3), then a `delete_many` -/
 def contBody : List BodyCmd := [.setMany 0 [(0, 1), (1, 2), (2, 3)] none, .delMany 0 [2, 3]]
@@ -373,49 +353,65 @@ example :
 /-- the class of seeded change C16-4: the FIRST backend's commit is cut short (its `delete_many`, command 5, ends
 with CancelledError).  `Transaction.commit` catches BaseException: backend 0's own locks go in its `finally`
 (commands 6-8), backend 1 is rolled back and unlocked (command 9); nothing is left, nothing is applied, the caller
-sees that very CancelledError; premise of `locks_released_when_unlock_faults_are_exceptions` -/
+sees that very CancelledError -/
 example :
-    let r := runBlock (demoCfgB [5] [5] false) demoBody demoWorld
+    let r := runBlock (demoCfgB [5] [5] true) demoBody demoWorld
     (match r.1 with | .err (.fault 5 .baseException) => true | _ => false) = true ∧
     r.2.locks = [] ∧ r.2.counter = 10 ∧ r.2.ctx = none ∧ r.2.data = demoWorld.data ∧
     (⟨9, 1, .unlock 1, false⟩ : Ev) ∈ r.2.log ∧
     (r.2.log.filter fun ev => ev.failed && (match ev.cmd with | .unlock _ => true | _ => false)) = [] := by
   decide +kernel
 
-/-- **COUNTEREXAMPLE to the full statement on the code at /repo** (`rbAll = false`): the body raises after writing on
-two backends; the rollback's unlock of lock key 2 of backend 0 (command 6) ends with CancelledError.  The sibling
-unlocks of the same `gather` still run (5, 7), but `_rollback` — `except Exception` — is left: backend 1 is never
-unlocked (8 commands in all), its lock `(1, 1)` stays with its full lease although no unlock of it was ever issued -/
-example :
-    let r := runBlock (demoCfgB [6] [6] false) (demoBody ++ [.raise]) demoWorld
-    (match r.1 with | .err (.fault 6 .baseException) => true | _ => false) = true ∧
-    r.2.locks = [((1, 1), ⟨true, some 16⟩), ((0, 2), ⟨true, some 16⟩)] ∧ r.2.counter = 8 ∧ r.2.ctx = none ∧
-    (∀ ev ∈ r.2.log, ev.b = 1 → ev.cmd ≠ .unlock 1) ∧ r.2.data = demoWorld.data := by decide +kernel
-
-/-- the same fault as an `Exception`: `_rollback` goes on, backend 1 is unlocked (command 8), only the entry whose own
-unlock failed is left -/
-example :
-    let r := runBlock (demoCfgB [6] [] false) (demoBody ++ [.raise]) demoWorld
-    (match r.1 with | .err (.fault 6 .exception) => true | _ => false) = true ∧
-    r.2.locks = [((0, 2), ⟨true, some 16⟩)] ∧ r.2.counter = 9 := by decide +kernel
-
-/-- … and the CancelledError again, with the repaired loop (`rbAll = true`): every backend is rolled back, the
-CancelledError is re-raised at the end -/
+/-- the class of defect D36 (N1), on the loop of /repo: the body raises after writing on two backends; the rollback's
+unlock of lock key 2 of backend 0 (command 6) ends with CancelledError.  Its siblings of the same `gather` run (5, 7),
+`_rollback` goes on: backend 1 is unlocked (command 8), the CancelledError is re-raised at the end; only the entry whose
+own unlock failed is left -/
 example :
     let r := runBlock (demoCfgB [6] [6] true) (demoBody ++ [.raise]) demoWorld
     (match r.1 with | .err (.fault 6 .baseException) => true | _ => false) = true ∧
-    r.2.locks = [((0, 2), ⟨true, some 16⟩)] ∧ r.2.counter = 9 ∧ (⟨8, 1, .unlock 1, false⟩ : Ev) ∈ r.2.log := by
+    r.2.locks = [((0, 2), ⟨true, some 16⟩)] ∧ r.2.counter = 9 ∧ r.2.ctx = none ∧
+    (⟨8, 1, .unlock 1, false⟩ : Ev) ∈ r.2.log ∧ r.2.data = demoWorld.data := by
   decide +kernel
 
-/-- the first exception of a `gather` decides: unlock 5 fails with an `Exception`, its sibling 6 with a CancelledError —
-the awaiter gets the Exception, `_rollback` goes on; the other way round (5 cancelled, 6 an Exception) it is left -/
+/-- the same fault as an `Exception`: same commands, the caller sees the Exception -/
+example :
+    let r := runBlock (demoCfgB [6] [] true) (demoBody ++ [.raise]) demoWorld
+    (match r.1 with | .err (.fault 6 .exception) => true | _ => false) = true ∧
+    r.2.locks = [((0, 2), ⟨true, some 16⟩)] ∧ r.2.counter = 9 := by decide +kernel
+
+/-- **Remark about the OLD loop of `Transaction._rollback`** (`except Exception` only, before repair 12f0cbb / D36;
+`cfg.rbAll = false`): the full statement was FALSE of it — the hypothesis `cfg.rbAll = true` of
+`locks_released_or_self_failed` cannot be dropped.  Witness (reproduced on the real code by
+corpus/C16/N1_rollback_unlock_cancelled_other_backend_keeps_its_lock.json with 12f0cbb reverted): the run above with
+the old loop — the CancelledError of command 6 leaves `_rollback`, backend 1 is never unlocked (8 commands in all), its
+lock `(1, 1)` stays with its full lease although no unlock of it was ever issued. -/
+theorem old_rollback_loop_left_locks :
+    ∃ (cfg : Cfg) (body : List BodyCmd) (w : FWorld), cfg.rbAll = false ∧ w.ctx = none ∧ NoMine w ∧
+      ∃ b lk e, alLookup (runBlock cfg body w).2.locks (b, lk) = some e ∧ e.mine = true ∧
+        ¬ OwnUnlockFailed cfg w (runBlock cfg body w).2 b lk := by
+  refine ⟨demoCfgB [6] [6] false, demoBody ++ [.raise], demoWorld, rfl, rfl,
+    fun _ _ h => by simp [demoWorld, FWorld.init] at h, 1, 1, ⟨true, some 16⟩, by decide +kernel, rfl, ?_⟩
+  rintro ⟨i, _, _, _, hmem⟩
+  have hno : ∀ ev ∈ (runBlock (demoCfgB [6] [6] false) (demoBody ++ [.raise]) demoWorld).2.log,
+      ¬ (ev.b = 1 ∧ ev.cmd = .unlock 1) := by decide +kernel
+  exact hno _ hmem ⟨rfl, rfl⟩
+
+/-- … and what that run looked like -/
+example :
+    let r := runBlock (demoCfgB [6] [6] false) (demoBody ++ [.raise]) demoWorld
+    (match r.1 with | .err (.fault 6 .baseException) => true | _ => false) = true ∧
+    r.2.locks = [((1, 1), ⟨true, some 16⟩), ((0, 2), ⟨true, some 16⟩)] ∧ r.2.counter = 8 ∧ r.2.ctx = none := by
+  decide +kernel
+
+/-- the first exception of a `gather` decides (seen on the OLD loop): unlock 5 fails with an `Exception`, its sibling 6
+with a CancelledError — the awaiter gets the Exception, `_rollback` goes on; the other way round it was left -/
 example :
     (runBlock (demoCfgB [5, 6] [6] false) (demoBody ++ [.raise]) demoWorld).2.counter = 9 ∧
     (runBlock (demoCfgB [5, 6] [5] false) (demoBody ++ [.raise]) demoWorld).2.counter = 8 := by decide +kernel
 
 /-- three backends, commit: backend 0's `set_many` (command 3) fails with an Exception, the rollback of backend 1 is
 cut short (its unlock, command 5, CancelledError): the caller sees the CancelledError (it replaces the commit's
-exception), backend 2 keeps its lock on /repo's loop and is unlocked by the repaired one -/
+exception), backend 2 kept its lock with the OLD loop and is unlocked by the loop of /repo -/
 example :
     let body : List BodyCmd := [.set 0 0 1 none, .set 1 0 1 none, .set 2 0 1 none]
     let r := runBlock (demoCfgB [3, 5] [5] false) body demoWorld
